@@ -36,7 +36,7 @@ def gen_programs(rng, nmax=5, pools=False):
     return progs
 
 
-def gen_script(rng, progs, npass, shutdown=None, faults=False, rpcs=True):
+def gen_script(rng, progs, npass, shutdown=None, faults=False, rpcs=True, group_forms=True):
     """shutdown: None | pass index at which a shutdown/restart request arrives"""
     names = [p['name'] for p in progs]
     ns = {p['name']: '%s:%s' % (p['group'], p['name']) for p in progs}
@@ -57,7 +57,7 @@ def gen_script(rng, progs, npass, shutdown=None, faults=False, rpcs=True):
         if rpcs and rng.random() < 0.2:
             rid[0] += 1
             nm = rng.choice(names)
-            tgt = rng.choice([ns[nm], ns[nm], '%s:*' % ns[nm].split(':')[0], 'nosuch'])
+            tgt = rng.choice([ns[nm], ns[nm], '%s:*' % ns[nm].split(':')[0], 'nosuch']) if group_forms else rng.choice([ns[nm], ns[nm], ns[nm], 'nosuch:x'])
             m = rng.random()
             if m < 0.4:
                 acts.append(('rpc', rid[0], 'supervisor.startProcess', (tgt, rng.random() < 0.6)))
@@ -65,6 +65,8 @@ def gen_script(rng, progs, npass, shutdown=None, faults=False, rpcs=True):
                 acts.append(('rpc', rid[0], 'supervisor.stopProcess', (tgt, rng.random() < 0.6)))
             elif m < 0.9:
                 acts.append(('rpc', rid[0], 'supervisor.signalProcess', (tgt, rng.choice(['HUP', 'USR1', '15', 'BOGUS']))))
+            elif not group_forms:
+                acts.append(('rpc', rid[0], 'supervisor.stopProcess', (tgt, True)))
             elif m < 0.95:
                 acts.append(('rpc', rid[0], 'supervisor.stopAllProcesses', (rng.random() < 0.5,)))
             else:
@@ -335,3 +337,153 @@ def scenario_from_input(inp):
             a[3] = tuple(a[3])
         return tuple(a)
     return inp['programs'], [(dt, [dec(a) for a in acts]) for dt, acts in inp['script']]
+
+
+# ---------------------------------------------------------------------------------------------- model lines
+
+def sup_case_line(k):
+    """configuration line for the Lean `sup` model, in process_groups insertion order"""
+    gidx, pidx, toks = {}, {}, []
+    for cfg in k.options.process_group_configs:
+        gidx[cfg.name] = len(gidx)
+        for pc in cfg.process_configs:
+            pidx[pc.name] = len(pidx)
+            p = k.programs[pc.name]
+            toks.append('prog=%d/%d/%d/%d/%d/%d/%d/%s/%s/%d/%d/%d/%d' % (
+                gidx[cfg.name], cfg.priority, pidx[pc.name], pc.priority, pc.startsecs * TICK, pc.startretries,
+                int(pc.autostart), p.get('autorestart', 'unexpected'), '.'.join(str(x) for x in pc.exitcodes) or '-',
+                int(pc.stopsignal), pc.stopwaitsecs * TICK, int(pc.stopasgroup), int(pc.killasgroup)))
+    return 'case sup ' + ' '.join(toks), gidx, pidx
+
+
+def decode_es(sts):
+    if sts & 0x7f == 0:
+        return (sts >> 8) & 0xff
+    return -1
+
+
+def sup_lines(k):
+    """(case line, [pass op lines], [impl canonical lines]) from a finished SimKernel run"""
+    case, gidx, pidx = sup_case_line(k)
+    gof = {p['name']: p.get('group', p['name']) for p in k.programs.values()}
+    def pn(name):
+        return '%d' % pidx[name]
+    # split at poll records: a pass = records from one 'poll' up to (not including) the next 'poll'
+    segs, cur, started = [], None, False
+    for r in k.log:
+        if r['kind'] == 'poll':
+            if cur is not None:
+                segs.append(cur)
+            cur = [r]
+        elif cur is not None:
+            cur.append(r)
+    if cur is not None:
+        segs.append(cur)
+    sigq = []
+    ops, lines = [], []
+    for si, recs in enumerate(segs):
+        poll = recs[0]
+        for a in k.script[poll['passno'] - 1][1]:
+            if a[0] == 'sig':
+                sigq.append(int(a[1]))
+        spawns, kills, waits, rpcs, outs = [], [], [], [], []
+        seg, nseg = [], 0
+        boundary = None
+        reached_signal = True
+        i = 0
+        while i < len(recs):
+            r = recs[i]
+            kd = r['kind']
+            if kd == 'event' and r['name'].startswith('PROCESS_STATE_'):
+                to = r['name'][len('PROCESS_STATE_'):]
+                outs.append('%s:ev:%s<%s:pid=%d:tries=%d:exp=%d' % (pn(r['process']), to, ST[r['frm']], r['pid'], r['tries'], r['expected']))
+                if to == 'STARTING':
+                    # outcome of this spawn attempt: look ahead
+                    res = None
+                    for q in recs[i + 1:]:
+                        if q['kind'] == 'event' and q['name'] == 'PROCESS_STATE_STARTING':
+                            break
+                        if q['kind'] == 'stat-missing' and q['name'] == r['process']:
+                            res = 'badcmd'; break
+                        if q['kind'] == 'fault' and q['call'] == 'pipe':
+                            res = 'pipeerr'; break
+                        if q['kind'] == 'fault' and q['call'] == 'fork':
+                            res = 'forkerr'; break
+                        if q['kind'] == 'fork':
+                            res = 'ok=%d' % q['pid']; break
+                    spawns.append(res or 'UNRESOLVED')
+            elif kd == 'event' and r['name'] == 'SUPERVISOR_STATE_CHANGE_STOPPING':
+                outs.append('STOPPING')
+            elif kd == 'fork':
+                outs.append('%s:fork:%d' % (pn(r['name']), r['pid']))
+            elif kd == 'kill':
+                kills.append(r.get('result', 'fail'))
+                outs.append('%s:kill:%d:%d' % (pn(r['name']) if r.get('name') else '?', r['pid'], r['sig']))
+            elif kd == 'wait':
+                if r.get('pid'):
+                    c = k.children.get(r['pid'])
+                    seg.append('%d:%d' % (r['pid'], decode_es(r['sts'])))
+                    if c is None:
+                        outs.append('reaped-unknown:%d' % r['pid'])
+                    if len(seg) == 100:
+                        waits.append(seg); seg = []
+                else:
+                    waits.append(seg); seg = []
+            elif kd == 'fault' and r['call'] == 'waitpid':
+                waits.append(seg); seg = []
+            elif kd == 'rpc-begin':
+                m = r['method'].split('.')[1]
+                a = r['args']
+                tgt = a[0] if a else ''
+                if m in ('startProcess', 'stopProcess', 'signalProcess'):
+                    g, _, n = tgt.partition(':')
+                    gi = gidx.get(g, 99)
+                    ni = pidx.get(n, 99) if gof.get(n) == g else 99
+                    if m == 'startProcess':
+                        rpcs.append('start:%d:%d:%d:%d:%d' % (r['id'], gi, ni, int(bool(a[1])), int(n in r['missing'])))
+                    elif m == 'stopProcess':
+                        rpcs.append('stop:%d:%d:%d:%d' % (r['id'], gi, ni, int(bool(a[1]))))
+                    else:
+                        from supervisor.datatypes import signal_number
+                        try:
+                            sn = int(signal_number(a[1]))
+                        except ValueError:
+                            sn = -1
+                        rpcs.append('signal:%d:%d:%d:%d' % (r['id'], gi, ni, sn))
+                elif m in ('shutdown', 'restart'):
+                    rpcs.append('%s:%d' % (m, r['id']))
+                else:
+                    rpcs.append('unsupported:%d' % r['id'])
+            elif kd == 'rpc-answer':
+                code = r['fault'] if 'fault' in r else (FAULT['SUCCESS'] if r.get('value') is True else -1)
+                outs.append('answer:%d:%d:%d' % (r['id'], code, 1 if r.get('deferred') else 0))
+            elif kd == 'rpc-deferred':
+                outs.append('deferred:%d' % r['id'])
+            elif kd == 'rpc-error':
+                outs.append('rpc-error:%s' % r['id'])
+            elif kd == 'boundary':
+                boundary = r
+            i += 1
+        if seg:
+            waits.append(seg)
+        last = si == len(segs) - 1
+        status = 'ok'
+        if last and k.outcome == 'exitnow':
+            outs.append('EXITNOW'); status = 'exit'
+        elif last and k.outcome.startswith('exception'):
+            status = 'err:' + k.outcome.split(':')[1]
+        # handle_signal runs once per pass (after reap) unless the pass ended before it
+        sig = '-'
+        ended_early = last and k.outcome.startswith('exception')
+        if sigq and not ended_early:
+            sig = str(sigq.pop(0))
+        if boundary is None:
+            continue        # the run was cut (StopSim) inside this pass: nothing to compare
+        st = ' '.join('%s=%s:%d' % (pn(full.split(':')[1]), ST.get(s, s), pid)
+                      for full, (s, pid) in sorted(boundary['procs'].items(), key=lambda kv: pidx[kv[0].split(':')[1]]))
+        def j(xs, sep):
+            return sep.join(xs) if xs else '-'
+        ops.append('pass now=%d sig=%s spawns=%s kills=%s waits=%s rpcs=%s' % (
+            poll['t'], sig, j(spawns, ','), j(kills, ','), j([j(s, ',') if s else 'e' for s in waits], '/') if waits else '-', j(rpcs, ';')))
+        lines.append('%s | %s mood=%d | %s' % (j(outs, ';'), st, boundary['mood'], status))
+    return case, ops, lines
